@@ -905,3 +905,68 @@ theorem c02_stacked_p_deriv (opa : ℝ) (h0 : 0 < opa) (ns q : ℝ) (l : List DS
     have hw := c02_weighted_ratio_grad ev q hder hsum
     unfold xOfRatio dxOfDRatio
     exact (hw.sub_const 1).div_const _
+
+/-! ## the `f_j` gradient at a dataset without signal yield (`a_j = 0`)
+
+`c02_fj_quotient` is stated for the form the code uses, `(a_j'·a − a_j·a')/a²`, whose only denominator
+is the *total* `a`; it therefore covers a dataset row whose sources all have zero yield.  The
+algebraically "equivalent" logarithmic-derivative form `f_j·(a_j'/a_j − a'/a)` divides by `a_j`: it is
+modelled with its `0/0` made explicit (`none`, a NaN in IEEE arithmetic), agrees with the coded form
+whenever `a_j ≠ 0`, and is undefined at `a_j = 0` although the derivative exists there. -/
+
+namespace C02
+
+/-- the rewritten form `f_j * (a_j_grads / a_j - a_grads / a)`; `none` = division `0/0` or `x/0` by `a_j` -/
+noncomputable def fjGradRowLogForm (a da : List (List ℝ)) (row drow : List ℝ) : Option ℝ :=
+  if sumF row = 0 then none
+  else some (fjRow a row * (sumF drow / sumF row - total da / total a))
+
+end C02
+
+/-- **coded form at a dataset without any signal yield**: all `a_jk` of the row are such that `a_j = 0` at
+`q` (the total `a ≠ 0`) — the stored `f_j_grads` entry is still the derivative of `f_j`, and it equals
+`a_j'/a`. -/
+theorem c02_fj_quotient_zero_row (A : List (List ((ℝ → ℝ) × ℝ))) (r : List ((ℝ → ℝ) × ℝ)) (q : ℝ)
+    (hA : ∀ r ∈ A, ∀ e ∈ r, HasDerivAt e.1 e.2 q) (hr : ∀ e ∈ r, HasDerivAt e.1 e.2 q)
+    (hne : total (A.map (fun r => r.map (fun e => e.1 q))) ≠ 0)
+    (hzero : sumF (r.map (fun e => e.1 q)) = 0) :
+    HasDerivAt (fun t => fjRow (A.map (fun r => r.map (fun e => e.1 t))) (r.map (fun e => e.1 t)))
+      (fjGradRow (A.map (fun r => r.map (fun e => e.1 q))) (A.map (fun r => r.map (·.2)))
+        (r.map (fun e => e.1 q)) (r.map (·.2))) q ∧
+    fjGradRow (A.map (fun r => r.map (fun e => e.1 q))) (A.map (fun r => r.map (·.2)))
+        (r.map (fun e => e.1 q)) (r.map (·.2))
+      = sumF (r.map (·.2)) / total (A.map (fun r => r.map (fun e => e.1 q))) := by
+  refine ⟨c02_fj_quotient A r q hA hr hne, ?_⟩
+  unfold fjGradRow
+  rw [hzero]
+  field_simp
+  ring
+
+/-- where `a_j ≠ 0` (and `a ≠ 0`) the rewritten form is defined and equals the coded form -/
+theorem c02_fj_logform_agrees (a da : List (List ℝ)) (row drow : List ℝ)
+    (ha : total a ≠ 0) (hrow : sumF row ≠ 0) :
+    fjGradRowLogForm a da row drow = some (fjGradRow a da row drow) := by
+  unfold fjGradRowLogForm fjGradRow fjRow
+  rw [if_neg hrow]
+  congr 1
+  field_simp
+
+/-- **the rewritten form is undefined exactly where a dataset has no signal yield**, for every table —
+while by `c02_fj_quotient_zero_row` the coded form returns the derivative there -/
+theorem c02_fj_logform_undefined_at_zero_row (a da : List (List ℝ)) (row drow : List ℝ)
+    (hrow : sumF row = 0) : fjGradRowLogForm a da row drow = none := by
+  unfold fjGradRowLogForm
+  rw [if_pos hrow]
+
+/-- witness: two datasets, one source; the second dataset has zero yield (`a_jk = [[t], [0·t]]`, i.e.
+table `[[2],[0]]` at `t = 2` with derivatives `[[1],[0]]`): the coded gradient of `f_2` is `0`, finite,
+the rewritten form is undefined -/
+example : fjGradRow [[(2 : ℝ)], [0]] [[1], [0]] [0] [0] = 0 ∧
+    fjGradRowLogForm [[(2 : ℝ)], [0]] [[1], [0]] [0] [0] = none := by
+  constructor
+  · simp [fjGradRow, total, sumF]
+  · exact c02_fj_logform_undefined_at_zero_row _ _ _ _ (by simp [sumF])
+
+/-- non-vacuity of `c02_fj_quotient_zero_row`: a zero row inside a table with non-zero total -/
+example : total [[(2 : ℝ)], [0]] ≠ 0 ∧ sumF [(0 : ℝ)] = 0 := by
+  constructor <;> simp [total, sumF]
